@@ -50,6 +50,9 @@ impl Check for MerkleIndexed {
     fn id(&self) -> &'static str { "merkle_indexed" }
     fn runs(&self, tier: Tier) -> u64 { if tier == Tier::Quick { 400 } else { 30_000 } }
     fn components(&self) -> serde_json::Value { serde_json::json!({"real": ["MerkleDistributor<Keccak256>::verify_with_index_and_set_claimed", "Verifier::verify_with_index", "crypto::keccak"], "stub": ["reference positional tree in the harness"]}) }
+    fn clock_step(&self, n: u32) -> Option<Step> {
+        Some(Step::Advance { n })
+    }
     fn generate(&self, rng: &mut Rng, tier: Tier) -> (Cfg, std::vec::Vec<Step>) {
         let mk = |rng: &mut Rng| match rng.below(5) { 0 => 1, 1 => 2, 2 => 3, _ => 1 + rng.below(if tier == Tier::Quick { 20 } else { 100 }) as usize };
         let cfg = Cfg { sizes: vec![mk(rng), mk(rng)] };
